@@ -441,6 +441,9 @@ func (j *Job) GenArgs(scratch, file string) []string {
 
 // Generate runs the generator into scratch (which must contain thrift/…).
 func (e *Env) Generate(j *Job, scratch string, extraEnv ...string) (ok bool, out string) {
+	if len(j.Order) == 0 {
+		return true, "" // nothing to generate: the job only compiles the given Go files
+	}
 	files := []string{j.Order[len(j.Order)-1]}
 	if j.Opts.PerFile() {
 		files = j.Order
